@@ -153,7 +153,11 @@ def cyclic_breaches(desc, s):
         else:
             d = oracle_doc.doc(c, original, s)
             if d is not None and d["score"] < 0:
-                bad.append("%s %s breached" % (k, c.get("location") or c.get("indices")))
+                if k == "keep_edits" and whole and c.get("indices") is None:
+                    # open finding D20: a budget over the whole circular sequence is re-anchored on every view
+                    bad.append("whole-span-budget: %s edits allowed, %d made" % (c.get("max_edits", c.get("max_edits_percent")), -d["score"] + (c.get("max_edits") or 0)))
+                else:
+                    bad.append("%s %s breached" % (k, c.get("location") or c.get("indices")))
     return bad
 
 
@@ -175,6 +179,8 @@ def oracle(results, out):
             bad = cyclic_breaches(case["desc"], p.sequence)
             if bad:
                 kinds = "junction" if any("circular sequence" in b or "GC window" in b for b in bad) else "restriction"
+                if all(b.startswith("whole-span-budget") for b in bad):
+                    kinds = "whole-span-edit-budget"
                 out.append(dict(kind="returned-with-breach:%s" % kinds, input=inp, detail="%s -> %s: %s" % (case["desc"]["sequence"], p.sequence, "; ".join(bad)[:300])))
         elif oc != "NoSolution":
             n_ = len(case["desc"]["sequence"])
